@@ -132,7 +132,17 @@ def plan(rng, n, tier):
     """A history for a message of n >= 1 subsets (deterministic in rng)."""
     quick = tier == 'quick'
     max_derived = 1 if quick else 2
-    ok, bad = pick_collections(rng, n, tier)
+    ok_all, bad = pick_collections(rng, n, tier)
+    whole = [I for I in ok_all if len(set(I)) == n]
+    part = [I for I in ok_all if len(set(I)) < n] or ok_all
+
+    class Pick(object):
+        """in-range collections; those that select every subset (the costly ones to encode) less often for larger messages"""
+        def choice(self):
+            if whole and rng.random() < (0.12 if n > 16 else 0.3):
+                return rng.choice(whole)
+            return rng.choice(part)
+    okp = Pick()
     ops = []
     nxt = {'rid': 0, 'oid': 1}
     okres = []          # (rid, obj, distinct count) of in-range results in production order
@@ -151,10 +161,10 @@ def plan(rng, n, tier):
         ops.append({'op': 'source', 'obj': obj, 'how': how or rng.choice(['render', 'reencode'])})
 
     # phase 1: several extractions from the one object, none consumed yet
-    a = rng.choice(ok)
+    a = okp.choice()
     b = a
     for _ in range(8):
-        b = rng.choice(ok)
+        b = okp.choice()
         if set(b) != set(a):
             break
     seq = [a]
@@ -164,7 +174,7 @@ def plan(rng, n, tier):
     if rng.random() < 0.65:
         seq.append(list(a))                     # an equal collection again, after the object was subset differently
     if rng.random() < (0.3 if quick else 0.5):
-        seq.append(rng.choice(ok))
+        seq.append(okp.choice())
     if rng.random() < 0.3:
         seq.insert(rng.randrange(1, len(seq)), rng.choice(bad))
     if rng.random() < 0.5:
@@ -172,7 +182,7 @@ def plan(rng, n, tier):
     for k, I in enumerate(seq):
         call(0, I)
         if rng.random() < 0.2:
-            source(0, 'render' if rng.random() < 0.7 else 'reencode')
+            source(0, 'render' if rng.random() < (0.85 if quick else 0.7) else 'reencode')
     # phase 2: consume in another order, more extractions in between
     order = [r for r, _, _ in okres]
     rng.shuffle(order)
@@ -190,7 +200,7 @@ def plan(rng, n, tier):
         kind, r = queue.pop(0)
         x = rng.random()
         if x < (0.15 if quick else 0.3) and steps < 12:
-            I = rng.choice(ok) if rng.random() < 0.75 else rng.choice(bad)
+            I = okp.choice() if rng.random() < 0.75 else rng.choice(bad)
             rid = call(0, I)
             if rid is not None:
                 distinct[rid], robj[rid] = len(set(I)), 0
@@ -231,7 +241,7 @@ def plan(rng, n, tier):
             ops.append({'op': 'encode', 'rid': rng.choice(encoded), 'derive': None, 'oid': None})
             n_twice += 1
         if rng.random() < 0.25:
-            source(rng.choice(sorted(n_of)), 'render' if rng.random() < 0.7 else 'reencode')
+            source(rng.choice(sorted(n_of)), 'render' if rng.random() < (0.85 if quick else 0.7) else 'reencode')
     if not n_twice and encoded:
         ops.append({'op': 'encode', 'rid': rng.choice(encoded), 'derive': None, 'oid': None})
     if not n_mut and distinct:
